@@ -468,8 +468,9 @@ Proof.
 Qed.
 Lemma wf_winput_parts w : wf_winput w = true ->
   length (wi_grid w) = 2%nat /\ length (wi_fixed w) = 93%nat /\ length (wi_vsys2 w) = 2%nat
-  /\ 0 <= wi_nx w <= 999 /\ 0 <= wi_ny w <= 999
-  /\ nth 0 (wi_grid w) 0 <= 64 /\ nth 1 (wi_grid w) 0 <= 64
+  /\ 0 <= wi_nx w <= 26999 /\ 0 <= wi_ny w <= 26999
+  /\ grid_thousands (nth 0 (wi_grid w) 0) = 1000 * (wi_nx w / 1000)
+  /\ grid_thousands (nth 1 (wi_grid w) 0) = 1000 * (wi_ny w / 1000)
   /\ forall p, In p (wi_periods w) -> wf_wperiod (wi_nx w) (wi_ny w) p = true.
 Proof.
   unfold wf_winput. intros H. split_andb H.
@@ -503,9 +504,8 @@ Proof.
                  = wi_nx w * wi_ny w - (108 + table_len (write_levels p))).
   { unfold lenZ. rewrite repeat_length. lia. }
   assert (Gok : grid_ok (write_period w p) = true).
-  { unfold grid_ok, grid_thousands, write_period. cbn [p_grid p_nx p_ny].
-    rewrite (Z.div_small (wi_nx w) 1000), (Z.div_small (wi_ny w) 1000) by lia.
-    apply andb_true_iff; split; apply Z.eqb_eq; lia. }
+  { unfold grid_ok, write_period. cbn [p_grid p_nx p_ny].
+    apply andb_true_iff; split; apply Z.eqb_eq; assumption. }
   unfold wf_period. rewrite Gok. unfold write_period, ncell, lenh, len_is.
   cbn [p_time p_grid p_fixed p_vsys2 p_nx p_ny p_levels p_pad].
   rewrite Ht, Hg, Hf, Hv, Ell, Epad, Z.eqb_refl. cbn [Nat.eqb andb].
